@@ -560,10 +560,14 @@ pub(crate) fn add_float_format<W, R, T>(
             if specs.ty.alternative{
                 return xerr(ManagedXError::new("no alt type available for float formatting", rt)?);
             }
+            let precision = specs.precision.unwrap_or(6);
+            if precision > u16::MAX as usize {
+                return xerr(ManagedXError::new("precision out of range", rt)?);
+            }
             let body = match get_body(
                 mag,
                 specs.ty.type_,
-                specs.precision.unwrap_or(6),
+                precision,
                 specs.grouping,
             ) {
                 Ok(body)=>body,
